@@ -160,7 +160,10 @@ class Exactness:
     for name in assigns:
       if name not in env or name not in f.params:
         env[name] = K()
-    for _ in range(4):
+    def pending(v, self_name):
+      # the value reads a local whose kinds are not known yet (it is assigned further down in source order): wait a round
+      return any(isinstance(x, ast.Name) and x.id != self_name and x.id in assigns and not env.get(x.id) for x in ast.walk(v))
+    for rnd in range(8):
       changed = False
       for name, lst in assigns.items():
         cur = set(env.get(name, K()))
@@ -168,6 +171,9 @@ class Exactness:
           pass
         for (kind, v) in lst:
           if kind == "expr":
+            if rnd < 6 and pending(v, name):
+              changed = True
+              continue
             cur |= self.kind(f, v, env)
           elif kind == "kind":
             cur |= v
@@ -360,7 +366,7 @@ class Exactness:
 
 def check_exactness(ctx, funcs: typing.Iterable[FuncInfo], rule="EXA", exempt: typing.Optional[dict] = None, shared=None,
                     trunc_scope: typing.Optional[typing.Callable[[FuncInfo], bool]] = None):
-  """exempt: {(func qualname, normalised call text): reason}
+  """exempt: {(func qualname, normalised call text | predicate(ex, f, call, env)): reason}
   trunc_scope(f): whether truncation sinks inside f are on a seconds->frames path (time sinks are
   checked in every function handed in)."""
   ix = ctx.ix
@@ -425,8 +431,8 @@ def check_exactness(ctx, funcs: typing.Iterable[FuncInfo], rule="EXA", exempt: t
         n_sinks += 1
         key = f"{f.qualname}|{short(n, 110)}"
         if k & blamed:
-          ek = (f.qualname, unparse(n))
-          if ek in exempt:
+          ek = next((e for e in exempt if e[0] == f.qualname and (e[1](ex, f, n, env) if callable(e[1]) else e[1] == unparse(n))), None)
+          if ek is not None:
             used.add(ek)
             ctx.ok(rule, key + "|exempt", ctx.where(f.module, n), "reasoned exception: " + exempt[ek])
           else:
